@@ -272,6 +272,42 @@ def _rows_for(dbp, ecu_name, props):
     return rows
 
 
+def _jv(v):
+    if v is None:
+        return "z"
+    if isinstance(v, bool):
+        return f"n{int(v)}"
+    if isinstance(v, int):
+        return f"n{v}"
+    if isinstance(v, str):
+        return "s" + v.encode().hex()
+    return "j" + json.dumps(v, separators=(",", ":")).encode().hex()
+
+
+def _kvs(d):
+    return ",".join(f"{k.encode().hex()}={_jv(v)}" for k, v in d.items()) if d else "+"
+
+
+def _db_line(dbp, ecu_name, props, reqs):
+    """the database and the selector as data for the Lean model (Model/Replay.lean: DbRow, RunInfo, Selector): the model itself
+    decides which runs the WHERE clause selects"""
+    c = sqlite3.connect(dbp)
+    runs, run_ids = [], []
+    for (run, pp) in c.execute("SELECT id, properties_pre FROM scan_run ORDER BY id").fetchall():
+        name = c.execute("SELECT e.name FROM scan_run s, address a, ecu e WHERE s.id=? AND s.address=a.id AND a.ecu=e.id", (run,)).fetchone()
+        pp = json.loads(pp) if pp else {}
+        runs.append(f"{run}/{name[0].encode().hex() if name else '-'}/{_kvs(pp)}")
+        run_ids.append(run)
+    rows = []
+    for rid, run, state, req, resp in c.execute("SELECT id, run, state, request_pdu, response_pdu FROM scan_result ORDER BY id"):
+        st = json.loads(state)
+        sec = st.get("security_access_level")
+        rows.append(f"{rid}:{run}:{st['session']}:{'n' if sec is None else sec}:{req if req else '-'}:{resp if resp is not None else 'N'}")
+    c.close()
+    sel = f"{ecu_name.encode().hex() if ecu_name is not None else '-'}/{'-' if props is None else _kvs(props)}"
+    return f"replaydb {sel} {';'.join(runs)} {';'.join(rows)} | " + ",".join(hx(p) for p in reqs), run_ids
+
+
 def _logged_states(dbp, run_id):
     """the client's view of the ECU state as ECU._request logged it, one entry per exchange of this run"""
     c = sqlite3.connect(dbp)
@@ -313,7 +349,7 @@ def run(ctx):
                 "boot polling where the same request is first unanswered and later answered); the state logged per row is compared with the "
                 "model's client state-tracking rule; distinct = distinct (rows, request sequence); non-trivial = history contains a state change")
     n_db = ctx.pick(70, 400)
-    lines_replay, lines_agree, meta = [], [], []
+    lines_replay, lines_agree, lines_db, meta = [], [], [], []
     with tempfile.TemporaryDirectory(prefix="verif-c12-") as td:
         for di in range(n_db):
             dbp = Path(td) / f"db{di}.sqlite"
@@ -341,9 +377,14 @@ def run(ctx):
             c.commit()
             c.close()
             for ri, (run_id, url, hist) in enumerate(recs):
-                modes = [("name", f"ECU{ri}", None), ("props", None, {"vin": f"VIN{ri}"}), ("name+props", f"ECU{ri}", {"vin": f"VIN{ri}", "hw": 7})]
+                modes = [("name", f"ECU{ri}", None), ("props", None, {"vin": f"VIN{ri}"}), ("name+props", f"ECU{ri}", {"vin": f"VIN{ri}", "hw": 7}),
+                         ("name+null-prop", f"ECU{ri}", {"absent": None}), ("props-int+str", None, {"hw": 7, "vin": f"VIN{ri}"})]
                 if n_runs == 1:
                     modes.append(("none", None, None))
+                    modes.append(("props-shared", None, {"hw": 7}))
+                if rng.random() < 0.12:  # selectors that match nothing, or several ECUs at once (model vs code only)
+                    modes = [("name-unknown", "NOSUCH", None), ("props-wrong-value", None, {"vin": "VIN-none"}), ("props-wrong-type", None, {"hw": "7"}),
+                             ("props-null-vs-present", None, {"vin": None}), ("props-shared-many", None, {"hw": 7}), ("empty-props", None, {})]
                 mode, name, props = rng.choice(modes)
                 reqs = [p for p, _ in hist]
                 if rng.random() < 0.35:
@@ -351,6 +392,8 @@ def run(ctx):
                 real, _ = vrun(_replay(dbp, name, props, reqs))
                 rows = _rows_for(dbp, name, props)
                 lines_replay.append("replay " + ";".join(rows) + " | " + ",".join(hx(p) for p in reqs))
+                dbline, _ = _db_line(dbp, name, props, reqs)
+                lines_db.append(dbline)
                 lines_agree.append("agree " + ";".join(f"{hx(p)}:{hx(r) if r is not None else 'N'}" for p, r in hist))
                 meta.append({"db": di, "run": ri, "mode": mode, "hist": hist, "real": real, "n_runs": n_runs,
                              "logged": _logged_states(dbp, run_id)})
@@ -358,9 +401,11 @@ def run(ctx):
                 ctx.kind(f"runs={n_runs}", f"select:{mode}")
     out_r = ctx.lean(lines_replay)
     out_a = ctx.lean(lines_agree)
+    out_d = ctx.lean(lines_db)
     n_agree = n_disagree_presup = 0
-    for m, lr, la, line in zip(meta, out_r, out_a, lines_replay):
+    for m, lr, la, ld, line in zip(meta, out_r, out_a, out_d, lines_replay):
         hist, real = m["hist"], m["real"]
+        single = m["mode"] in ("name", "props", "name+props", "name+null-prop", "props-int+str", "none", "props-shared")
         real_s = ["EXC" if isinstance(r, tuple) else ("N" if r is None else hx(r)) for r in real]
         model_s = lr.split(",") if lr else []
         recorded_s = ["N" if r is None else hx(r) for _, r in hist]
@@ -392,7 +437,12 @@ def run(ctx):
                          f"state logged for exchange {i} is {m['logged'][i] if i < len(m['logged']) else '?'}, the client state-tracking rule gives "
                          f"{client_model[i] if i < len(client_model) else '?'} (session/security level before the request)",
                          {**case, "index": i}, impl=m["logged"], model=client_model, spec_violated=False, site="ECU.update_state")
-        if agree:
+        model_db = ld.split(" sel=")[0].split(",") if ld.split(" sel=")[0] else []
+        if ld == "bad-op" or model_db != model_s:
+            ctx.disagree(f"replay:selector:{m['mode']}", f"the model's own reading of the selector (ECU name / properties WHERE clause) gives another replay than the rows "
+                         f"selected with plain SQL: {ld[:120]} vs {lr[:120]}", case, impl=model_s, model=model_db, spec_violated=False, site="DBUDSServer.respond_after_default (selector)")
+            continue
+        if agree and single:
             n_agree += 1
             if real_s[: len(recorded_s)] != recorded_s:
                 i = next(k for k in range(len(recorded_s)) if real_s[k] != recorded_s[k])
@@ -400,7 +450,7 @@ def run(ctx):
                 ctx.disagree(f"replay:differs-from-recording:{what}", f"replayed reply {i} is {real_s[i]} but {recorded_s[i]} was recorded (states agree along the history)",
                              {**case, "index": i}, impl=real_s, model=recorded_s, spec_violated=True, site="DBUDSServer.respond_after_default")
                 continue
-        else:
+        elif single:
             n_disagree_presup += 1
         if real_s != model_s:
             i = next((k for k in range(min(len(real_s), len(model_s))) if real_s[k] != model_s[k]), 0)
